@@ -234,7 +234,11 @@ Definition present (t : otext) : option N := t.
 Definition own_wall (z : zone) (a sod : Z) : Z :=
   let w0 := utc_to_wall z a in
   let w1 := mk_wall (wall_day w0) sod in
-  if wall_to_utc z w1 (fold_of z a) =? a then w1 else w0.
+  if wall_to_utc z w1 (fold_of z a) =? a then w1 else
+  (* recurrence._anchor_wall_clock: ... or on the day before (a gap that runs up to midnight moves
+     the anchor's reading to the next local day); datetime - timedelta has fold 0 *)
+  let w2 := mk_wall (wall_day w0 - 1) sod in
+  if wall_to_utc z w2 false =? a then w2 else w0.
 
 (* a wall-clock reading as icalendar prints it *)
 Definition stamp_w (z : zone) (w : Z) : dtval := if zone_eqb z utc_zone then DUtc w else DTz z w.
